@@ -50,7 +50,8 @@ VARIABLES nodes,    \* table nodes: set of span records, at most one per eid
           todo,     \* root eids not yet hashed (temporary root table minus pages done)
           sel,      \* result of unique-graph selection: set of <<name, job>>, or NoSel
           out,      \* what the run streamed: set of [name, job, spans]
-          ans,      \* history: job |-> span set streamed by earlier runs; classes selected by earlier ug runs
+          ans,      \* history: job |-> span set streamed by earlier runs; classes selected by earlier ug runs; the set
+                    \* of traces output by the latest run without the unique-graph filter
           files,    \* history: the stream fed by the first ingesting run ("the same files" of C15)
           ingested, \* history: some earlier run has finished an ingestion
           tid, l    \* trace mode: trace index, next line
@@ -74,7 +75,7 @@ Init == /\ nodes = {} /\ assoc = {} /\ hashes = {} /\ pendN = <<>> /\ pendR = <<
         /\ pc = "off" /\ run = 0 /\ flags = [ing |-> FALSE, ug |-> FALSE] /\ fed = 0
         /\ first = {} /\ pre = [nodes |-> {}, assoc |-> {}]
         /\ todo = {} /\ sel = NoSel /\ out = {} /\ files = <<>> /\ ingested = FALSE
-        /\ ans = [jobs |-> <<>>, classes |-> {}, has |-> FALSE]
+        /\ ans = [jobs |-> <<>>, classes |-> {}, has |-> FALSE, full |-> {}, fhas |-> FALSE]
         /\ IF TraceMode THEN /\ tid \in 1..Len(Traces) /\ l = 1
                              /\ B = Traces[tid].B /\ buf = Traces[tid].buf
                         ELSE /\ tid = 0 /\ l = 0
@@ -240,7 +241,9 @@ Stream == /\ pc = "stream"
                                     ELSE ans.jobs[j]],
                      classes |-> IF flags.ug /\ ingested THEN {<<x.name, x.h>> : x \in {x \in hashes : <<x.name, x.job>> \in sel}}
                                  ELSE ans.classes,
-                     has |-> (ans.has \/ (flags.ug /\ ingested))]
+                     has |-> (ans.has \/ (flags.ug /\ ingested)),
+                     full |-> IF ~flags.ug /\ ingested THEN {o.job : o \in Streamed} ELSE ans.full,
+                     fhas |-> (ans.fhas \/ (~flags.ug /\ ingested))]
           /\ UNCHANGED <<nodes, assoc, hashes, pendN, pendR, minTs, maxTs, B, buf, run, flags, fed, first, pre, todo, sel,
                          files, ingested, tid>>
 
@@ -341,10 +344,12 @@ UniqueExact == (pc = "stream" /\ flags.ug) => UniqueExactP(sel, nodes, WinLo, Wi
 \* C12: the stream is a partition of the (filtered) store
 StreamExact == (pc = "done" /\ CleanOn) => StreamExactP(out, nodes, assoc, sel)
 \* C15: a later run gives the same answer as earlier runs for every trace both of them output, the same shape
-\* classes are selected by all ug runs, and no run crashes
+\* classes are selected by all ug runs, all runs without the unique-graph filter output the same set of traces (the
+\* files are the same), and no run crashes
 SameAnswer == [][(pc = "stream" /\ pc' = "done") =>
                    /\ \A j \in DOMAIN ans.jobs : j \in {o.job : o \in out'} => ans'.jobs[j] = ans.jobs[j]
-                   /\ (flags.ug /\ ingested /\ ans.has) => ans'.classes = ans.classes]_vars
+                   /\ (flags.ug /\ ingested /\ ans.has) => ans'.classes = ans.classes
+                   /\ (~flags.ug /\ ingested /\ ans.fhas) => {o.job : o \in out'} = ans.full]_vars
 
 (* ---------------- reporting (always TRUE) ---------------- *)
 ReportAcc == TraceAccepted => PrintT(<<"ACC", tid>>)
